@@ -715,7 +715,7 @@ fn parse_json_filter(input: &[u8], output: &mut [u8]) -> Result<(usize, usize), 
         eat_whitespace_and_commas(input, &mut inpos);
 
         // Check for end
-        if input[inpos] == b'}' {
+        if peek(input, inpos)? == b'}' {
             inpos += 1;
             break;
         }
@@ -858,10 +858,14 @@ fn parse_json_filter(input: &[u8], output: &mut [u8]) -> Result<(usize, usize), 
         // `inpos` is right after the open bracket of the array
         loop {
             eat_whitespace_and_commas(input, &mut inpos);
-            if input[inpos] == b']' {
+            if peek(input, inpos)? == b']' {
                 break;
             }
-            read_id(input, &mut inpos, &mut output[end..])?;
+            let slot = match output.get_mut(end..) {
+                Some(o) => o,
+                None => return Err(InnerError::BufferTooSmall(end).into()),
+            };
+            read_id(input, &mut inpos, slot)?;
             num_ids += 1;
             end += ID_SIZE;
         }
@@ -876,10 +880,14 @@ fn parse_json_filter(input: &[u8], output: &mut [u8]) -> Result<(usize, usize), 
         // `inpos` is right after the open bracket of the array
         loop {
             eat_whitespace_and_commas(input, &mut inpos);
-            if input[inpos] == b']' {
+            if peek(input, inpos)? == b']' {
                 break;
             }
-            read_pubkey(input, &mut inpos, &mut output[end..])?;
+            let slot = match output.get_mut(end..) {
+                Some(o) => o,
+                None => return Err(InnerError::BufferTooSmall(end).into()),
+            };
+            read_pubkey(input, &mut inpos, slot)?;
             num_authors += 1;
             end += PUBKEY_SIZE;
         }
@@ -898,7 +906,7 @@ fn parse_json_filter(input: &[u8], output: &mut [u8]) -> Result<(usize, usize), 
         // `inpos` is right after the open bracket of the array
         loop {
             eat_whitespace_and_commas(input, &mut inpos);
-            if input[inpos] == b']' {
+            if peek(input, inpos)? == b']' {
                 break;
             }
             let u = read_u64(input, &mut inpos)?;
@@ -944,8 +952,8 @@ fn parse_json_filter(input: &[u8], output: &mut [u8]) -> Result<(usize, usize), 
             let countindex = end;
             end += 2;
             put(output, end, 1_u16.to_ne_bytes().as_slice())?;
-            if output.len() < end + 2 {
-                return Err(InnerError::BufferTooSmall(end + 2).into());
+            if output.len() < end + 3 {
+                return Err(InnerError::BufferTooSmall(end + 3).into());
             }
             output[end + 2] = letter;
 
@@ -961,12 +969,16 @@ fn parse_json_filter(input: &[u8], output: &mut [u8]) -> Result<(usize, usize), 
             let mut count: u16 = 1; // the tag letter itself counts
             loop {
                 eat_whitespace_and_commas(input, &mut inpos);
-                if input[inpos] == b']' {
+                if peek(input, inpos)? == b']' {
                     break;
                 }
                 verify_char(input, b'"', &mut inpos)?;
                 // copy  data
-                let (inlen, outlen) = json_unescape(&input[inpos..], &mut output[end + 2..])?;
+                let valueout = match output.get_mut(end + 2..) {
+                    Some(o) => o,
+                    None => return Err(InnerError::BufferTooSmall(end + 2).into()),
+                };
+                let (inlen, outlen) = json_unescape(&input[inpos..], valueout)?;
                 // write len
                 put(output, end, (outlen as u16).to_ne_bytes().as_slice())?;
                 end += 2 + outlen;
